@@ -387,3 +387,12 @@ package resources
 //@   at[exact] call big.Int.IsInt64#1: assert bigval(arg0) == result * multipliers[suffix] * ((milli && suffix != "m") ? 1000 : 1)
 //@   at[checked] call big.Int.Int64#1: assert bigval(arg0) >= -9223372036854775808 && bigval(arg0) <= 9223372036854775807
 //@   at[same] call big.Int.Int64#1: assert arg0 == bigResult
+
+// the fair share of a queue is the maximum over ALL allocated resource types: the walk never stops early (the map order is
+// random, so an early exit would make the key depend on iteration order) and the running maximum never decreases
+//@ func getFairShare(allocated, guaranteed, fair *Resource) (share float64)
+//@   props C19
+//@   sweep
+//@   mode nopanic=off
+//@   loop 1: exhaustive
+//@   loop 1: each maxShare >= iter(maxShare)
